@@ -124,6 +124,8 @@ class SocketPort(BaseIOPort):
             raise OSError(err.args[1]) from err
 
     def _close(self):
+        self._rfile.close()
+        self._wfile.close()
         self._socket.close()
 
 
